@@ -311,6 +311,17 @@ def test_scalars(case, note):
             rel, ex, fd, trim = su.build(lvl, extra=fluid_extra(case[nm]))
             inv = rel["Weyl_invariants"]
             out[nm] = (inv["I"], inv["J"])
+            # E^u, B^u for a fluid moving relative to the slicing are the
+            # contractions of the returned Weyl tensor with the returned u
+            Cw = rel["st_Weyl_down4"]
+            Eu, Bu = _eb_from(Cw, rel["uup4"], rel["gdown4"], rel["gup4"],
+                              rel["gdet"])
+            scw = max(float(np.max(np.abs(Cw))), 1e-3)
+            for kk, ref in (("eweyl_u_down4", Eu), ("bweyl_u_down4", Bu)):
+                ee = A.err(rel[kk], ref)
+                if not ee <= 1e-10 * scw:
+                    note.fail(f"{kk}:tilted:not-weyl-contraction",
+                              dict(err=ee, scale=scw))
             if nm == "vel1":
                 # harness-rotated copy of the returned tetrad
                 base = rel.tetrad_base()
